@@ -36,6 +36,13 @@ func (in *Interp) initDepGlobal(g *ssa.Global, p *Value) {
 		*p = in.errorValue("sql: no rows in result set")
 	case "context.Canceled":
 		*p = in.errorValue("context canceled")
+	case "context.DeadlineExceeded":
+		// var DeadlineExceeded error = deadlineExceededError{}
+		if o := g.Pkg.Pkg.Scope().Lookup("deadlineExceededError"); o != nil {
+			*p = Iface{T: o.Type(), V: Struct{}}
+		} else {
+			panic(inconclusive{"context.deadlineExceededError not found"})
+		}
 	default:
 		if zeroOKGlobals[name] {
 			return
